@@ -12,7 +12,8 @@ determinant.
 import numpy as np
 
 DOMAIN = (1.0, 2.0, -1.0, 1.0)
-# a node of every grid used (33, 65, 97, 129, 257 points per direction), deliberately not the
+# a node of every grid with 33, 65, 97, 129 or 257 points per direction (the thorough tier adds
+# 64 and 100x150 points, where it is not), deliberately not the
 # centre of the domain
 C = (1.375, 0.125)
 
